@@ -376,7 +376,9 @@ CLAIM_ADDENDA = {
     "C01": " Every engine-N obligation has a bounded native twin (real arrays, two k-points with weights 0.3 / 0.7) run on every check; the band-energy stand-ins use one and two spin channels.",
     "C02": " Also: get_exc / get_vxc forward every argument to get_xc and return the matching outputs (forwarding contract on the AST); no functional writes to its input arrays "
            "(writes-frame on the AST); finiteness at zeta = +-1 also with a non-zero gradient in the empty channel (GGAs). An identity that stays undecided within the budget is additionally "
-           "evaluated natively on a fixed scan: only a failing point changes the verdict (to refuted), a pass leaves it undecided.",
+           "evaluated natively on a fixed scan: only a failing point changes the verdict (to refuted), a pass leaves it undecided. The PBE / PBEsol correlation identities are ALSO proved modularly "
+           "(engine S: chain rule over the function's own intermediate variables, symbolic beta; get_xc call-site contract; LDA part by callee contract; PBEsol wrapper contract on the AST): spin-paired in the quick tier, "
+           "spin-polarised (1-9 minutes each) in the thorough tier only.",
     "C03": " Every engine-N obligation has a bounded native twin on real objects (triclinic cell, anisotropic sampling, two weighted k-points).",
     "C04": " The symbolic instance is also run with exactly empty states below occupied ones; bounded native twins (scale invariance of orth from 1e-9 to 1e4, badly conditioned W, tiny-norm unoccupied sets).",
     "C05": " Bounded: Hermiticity of the ionic part alone on a coarse even grid; unoccupied eigenvalues for identical fillings with different orbitals per spin; native twins with unequal k-point weights.",
